@@ -2,9 +2,6 @@ from vlib import core
 
 SRC = ['harness/C12/h_c12.c']
 REPO_SRC = [('utils', 'buf_str.c'), ('utils', 'xml.c'), ('utils', 'ini.c'), ('utils', 'bt_encode.c')]
-# every ASan report is attributed to the case that is running: do not let ASan drop reports
-# whose PC was already seen in this process
-ENV = {'ASAN_OPTIONS': 'suppress_equal_pcs=0'}
 
 def build():
     return core.compile_c('C12', 'h_c12', SRC + [core.repo_src(*p) for p in REPO_SRC], libs=['-lpthread'])
@@ -18,5 +15,5 @@ def run(tier):
                        'a call that burns >= 20 ms of CPU is non-terminating (normal calls take microseconds)',
                        'bt_en_decode/nesting-depth uses an 8 MiB thread stack (Linux default)']
     b = build()
-    core.run_sharded(rep, b, tier, env=ENV, hang_s=30)
+    core.run_sharded(rep, b, tier, hang_s=30)
     rep.finish(core.make_replayer(lambda cfg: b, tier))
